@@ -131,7 +131,7 @@ coins the program explicitly destroyed, and only when it succeeded -/
 theorem C04_supply (s : BState) (t : EthTx) (x : Exec) :
     (stepEth s t x).2.dSupply ≤ 0 ∧
     (stepEth s t x).2.dSupply = -(((if (stepEth s t x).2.cls = .ok then t.sdBurn else 0) : Nat) : Int) := by
-  rcases stepEth_cases s t x with ⟨_, h⟩ | ⟨_, _, h⟩ | ⟨_, _, code, _, h⟩ | ⟨_, _, _, _, h⟩ | ⟨_, _, _, _, _, h⟩ |
+  rcases stepEth_cases s t x with ⟨_, h⟩ | ⟨_, _, h⟩ | ⟨_, _, code, _, _, _, h⟩ | ⟨_, _, _, _, h⟩ | ⟨_, _, _, _, _, h⟩ |
     ⟨_, _, _, _, _, _, h⟩ | ⟨_, _, _, _, _, _, h⟩ <;> rw [h]
   · simp [noOut]
   · simp [noOut]
